@@ -313,6 +313,28 @@ def seqBack (g : ValueFn) (skipZero : Bool) (fac : DecApi.Factory) (w : Wire.Opt
   | _, [] => []
   | st, m :: ms => let (n, st') := msgBack g skipZero fac w st m; n :: seqBack g skipZero fac w st' ms
 
+/-- the forms a validated message may come back in: as it is, or — rule (e), when its first field 253 is a `uint32`
+other than the invalid value, i.e. something the encoder may move into a compressed-timestamp header — with that
+timestamp in front as the decoder re-creates it (`tsField`) and the original field taken out -/
+def msgVariants (g : ValueFn) (skipZero : Bool) (fac : DecApi.Factory) (arch : Nat) (fds : List Validator.FieldDesc)
+    (m : Message) : List NMsg :=
+  let devs := m.devFields.filterMap (devBack g skipZero fds)
+  let plain : NMsg := ⟨m.num, m.fields.filterMap (fieldBack g skipZero fac m.num), devs⟩
+  let t := Wire.tsOf arch (toWire arch m)
+  if t != Wire.u32Invalid then
+    [plain, ⟨m.num, tsField fac m.num t :: (removeTs m.fields).filterMap (fieldBack g skipZero fac m.num), devs⟩]
+  else [plain]
+
+/-- the decoded messages are the validated messages, each in one of its allowed forms (the validator's developer-data
+look-ups threaded as in `seqBack`) -/
+def seqMatches (g : ValueFn) (skipZero : Bool) (fac : DecApi.Factory) (arch : Nat) :
+    Validator.State → List Message → List NMsg → Bool
+  | _, [], [] => true
+  | vst, m :: ms, n :: ns =>
+    let vst' := Validator.remember vst m.num m.fields
+    (msgVariants g skipZero fac arch vst'.fds m).contains n && seqMatches g skipZero fac arch vst' ms ns
+  | _, _, _ => false
+
 /-- **what the code returns** for the validated messages of one sequence -/
 def actualSeq (fac : DecApi.Factory) (w : Wire.Opts) (kept : List Message) : List NMsg :=
   seqBack reread true fac w {} kept
@@ -397,6 +419,7 @@ def facOKB (fac : DecApi.Factory) : Bool :=
 def wfMsg (m : Message) : Bool := m.fields.all (fun f => wf f.value) && m.devFields.all (fun d => wf d.value)
 
 def inDomain (fac : DecApi.Factory) (kept : List Message) : Bool :=
-  facOKB fac && kept.all (fun m => decide (m.num < 65536) && wfMsg m && plainKeys m && m.fields.all (agreeField fac m.num))
+  facOKB fac && kept.all (fun m => decide (m.num < 65536) && wfMsg m && plainKeys m &&
+    m.fields.all (fun f => f.base.isSome && agreeField fac m.num f))
 
 end Fit.E2E
